@@ -10,43 +10,39 @@ import registry  # noqa: E402
 TECH = "bounded model checking of the real Rust code: Kani 0.68 proof harnesses (kani::any inputs) -> CBMC 6.11 symbolic execution -> CaDiCaL; counterexamples replayed natively"
 
 CLAIMS = {
-    "C01": ("component obligations only: (K1) write-queue visibility - the real Keeper/PieceRef under a symbolic schedule of enqueue / write-completion, "
-            "(L1/L2) the real Store::load lookup order and decoded-key comparison over a harness Engine answering arbitrary (key,value)/miss/throttle/error, "
-            "(S1) disk-only inserts drop the in-memory copy. The end-to-end history statement (flusher, reclaim, recovery, reopen) is NOT decided.",
-            "4.C01"),
     "C03": ("decode layer over arbitrary / damaged bytes: EntryHeader::read (all 2^288 inputs), EntryDeserializer (arbitrary buffer, all u32 lengths, any checksum), "
-            "BlobIndexReader and BlockRecoverRunner/BlockScanner over images written by the real writer and then damaged, Tombstone::read, Store::load's key check. "
-            "Checksum is a stand-in fold; 'a damaged page whose xxhash64 still matches' is outside the claim.", "4.C03"),
-    "C05": ("single-shard accounting: for concrete small pre-states built through the API, ONE operation with symbolic key / weight / value keeps usage()==sum of findable weights, "
-            "entries()==count, evicts only while usage+weight>capacity, ends within capacity unless pinned / oversized; clear() zeroes; shard capacities add up (all usize totals, 1..4 shards).",
-            "4.C05"),
-    "C07": ("one splitter step from an ARBITRARY valid split context (inductive invariant asserted on the post-state) for batches of 1..3 entries with symbolic sizes: alignment, no overlap, "
-            "nothing lost/duplicated, recorded address == where the bytes go; the sealed index page read by the real reader lists exactly the blob; scanner step lands on the blob end.",
-            "4.C07"),
+            "BlobIndexReader on a page sealed by the real writer with one damaged byte and on arbitrary pages, Tombstone::read. The scanner / recovery runner and Store::load's key "
+            "check do NOT discharge and are not part of the claim. Checksum is a stand-in fold; 'a damaged page whose xxhash64 still matches' is outside the claim.", "0.4 / 4.C03"),
+    "C05": ("single-shard accounting: (a) literal small pre-states built through the API, ONE operation with literal key / weight / filter outcome and symbolic payload: usage()==sum of findable "
+            "weights, entries()==count, no eviction while usage+weight<=capacity, within capacity afterwards unless pinned / oversized, clear() zeroes, touch leaves nothing pinned; "
+            "(b) a RawCacheShard under 2 fully symbolic operations (capacity 0..4, keys, weights 0..3, phantom, hint) with per-eviction minimality; (c) shard capacities add up (all usize, 1..4 shards). "
+            "FIFO / LRU / SIEVE instantiations.", "0.4 / 4.C05"),
     "C08": ("Code round trips for every numeric type (all bit patterns), bool, String/Vec<u8>/Bytes at concrete lengths 0..8 with symbolic contents; too-small destinations give "
             "BufferSizeLimit, never partial success; entry framing (header write/read, serializer/deserializer, recorded lengths). Compression::None only.", "4.C08"),
-    "C10": ("the tombstone log's own arithmetic: slot addressing (all pages<=2^20, slots<2^40), tail location after reopen with the newest tombstone at positions in page 0, 1, 2 and across "
-            "partitions (contents symbolic), open->append->reopen cycle on a harness device. Recovery merge / engine integration is outside.", "4.C10"),
-    "C11": ("close-flag identity: the flag handed to the fetch leader is the one take()/fetch_or_take() set, so an insert during a fetch stops the fetch task (real InflightManager over "
-            "portable-group hashbrown). The full RawFetch schedule is in the thorough tier only if it discharges.", "4.C11"),
-    "C12": ("decision points only: on-disk / filtered advice is not retained in memory and is offered to the pipe exactly once at last drop; in-memory advice is retained and not piped at insert; "
-            "Store::enqueue admits iff forced or the admission filter admits, otherwise deletes. Device writes, policies and close are NOT decided.", "4.C12"),
-    "C13": ("single-threaded conservation over one-step harnesses with a recording listener and pipe: every entry that stops being findable produced exactly one on_leave with the matching reason; "
+    "C11": ("close-flag identity only: the flag handed to the fetch leader is the one InflightManager::take sets when an insert takes the in-flight entry over, so the fetch task sees it "
+            "(real InflightManager over portable-group hashbrown, one key, take by id or by key). The RawFetch schedule itself is NOT decided.", "0.4 / 4.C11"),
+    "C12": ("decision points only: on-disk advice / admission-filter rejection is not retained in memory and is offered to the pipe exactly once at last drop, ordinary inserts are retained and "
+            "not piped at insert; the real Store::enqueue over a harness Engine: a rejected / throttled entry is not queued and its older disk copy is deleted. Device writes, write policies, "
+            "close and HybridCache itself are NOT decided.", "0.4 / 4.C12"),
+    "C13": ("single-threaded conservation over one-step harnesses (literal structure, symbolic payload) with a recording listener and pipe: every entry that stops being findable produced exactly one on_leave with the matching reason; "
             "Evict (incl. evict_all and last drop of a disk-only entry) is piped exactly once, Replace/Remove/Clear never.", "4.C13"),
-    "C14": ("differential, symbolic inputs: the real Fifo / Lru / Sieve / S3Fifo containers against an executable reference of the documented rule, lock-step equality of every victim "
-            "and of the final drain order; 3 records, <=3 (quick) / <=6 (thorough) symbolic operations. w-TinyLFU is not covered.", "4.C14"),
-    "C16": ("single-thread re-entrancy: listener, weighter, filter and the value destructor call back (get/remove/insert) into the same single-shard cache during insert / remove / clear / "
+    "C14": ("differential, symbolic inputs: the real Fifo / Lru / Sieve containers against an executable reference of the documented rule, lock-step equality of every victim "
+            "and of the final drain order; 3 records with symbolic weights and hints, 3 (quick) / up to 5 (thorough) symbolic operations from push/pop/remove/acquire/release. "
+            "S3-FIFO and w-TinyLFU are NOT covered (their harnesses do not discharge; DESIGN 0.5).", "0.4 / 4.C14"),
+    "C16": ("single-thread re-entrancy: listener, weighter, filter and the value destructor call back (insert: write lock) into the same single-shard cache during insert / remove / clear / "
             "evict_all / disk-only drop; parking_lot slow paths are stubbed to panic, so any lock requested while held is a solver-visible failure. Multi-thread deadlocks are outside.", "4.C16"),
-    "C17": ("full 64-bit collisions (harness hasher): in-flight table, write queue (Keeper) and Store::load's disk-answer key check keep colliding keys apart; memory index via the "
-            "RawCache harnesses whose keys 16,17 collide. HashTableIndexer itself: thorough tier.", "4.C17"),
-    "C18": ("single-threaded: handle key/value/weight unchanged across the step, refs()==live handles, is_outdated() iff a lookup no longer returns the record, LRU never evicts a "
+    "C18": ("single-threaded, one-step harnesses (literal structure, symbolic payload): handle key/value/weight unchanged across the step, refs()==live handles, is_outdated() iff a lookup no longer returns the record, LRU never evicts a "
             "looked-up-and-held entry, capacity re-established after the last handle drop.", "4.C18"),
 }
 
 NA = {
+    "C01": "the core obligation (write-queue visibility in the real Keeper, Store::load's lookup order / key check) does not discharge: portable hashbrown lookups through raw-pointer `Piece`s need >600 s / 10-18 GB for a 4-step concrete schedule (DESIGN 0.5); flusher / reclaim / recovery / reopen need tokio. The keeper defect found on the way was reproduced natively and fixed (6210977).",
+    "C07": "the splitter step (Splitter::split over a 4 KiB blob index page) does not discharge in any shape tried - symbolic or literal offsets, counts, contents, field sensitivity 2048 / 4100, seal stubbed: 17-41 GB in CBMC's array post-processing (DESIGN 0.5); the buffer-side bookkeeping harness is kept under C08.",
+    "C10": "everything beyond the slot arithmetic runs through PageBuffer, whose `dyn Any` downcast has no body under Kani's vtable restriction and whose `Result<_, Error>` paths do not discharge (1500 s); async fns cannot be stubbed (DESIGN 0.5). Claiming the property on `calculate_slot_addr` alone would not have detected the defect found in `open` (fixed: 2570f1e, reproduced natively).",
+    "C17": "the real HashTableIndexer / in-flight table / keeper lookups (portable hashbrown reading buckets through computed pointers) do not discharge: two inserts + two lookups of colliding keys reach 26 GB / 1000 s (DESIGN 0.5); the RawCache harnesses use colliding keys but a harness indexer, which is not the code C17 is about.",
     "C02": "linearizability under thread interleavings: Kani/CBMC execute Rust sequentially (no thread model); splitting the real functions at interior points would be a hand-written model, not the real code (DESIGN 4.C02)",
     "C04": "crash points are prefixes of the write sequence emitted by the running flusher / tombstone / reclaimer tokio tasks and the recovery merge sits behind Spawner: not executable by the solver (DESIGN 4.C04); reachable recovery pieces are decided under C03/C07 and not relabelled",
-    "C06": "the fetch state machine (RawFetch::poll + InflightManager + mea oneshot + boxed futures) did not discharge at any useful schedule length within the thorough cap (DESIGN 4.C06); the close-flag obligation is kept under C11",
+    "C06": "the in-flight table alone (enqueue + fetch_or_take, or three enqueues + takes of colliding keys) needs > 1200 s; the fetch state machine on top of it (RawFetch::poll, mea oneshot, boxed futures, Spawner) is out of reach (DESIGN 0.5 / 4.C06); the close-flag obligation is kept under C11",
     "C09": "block hand-out / reclaim / writer liveness are properties of BlockManager + Reclaimer + Flusher running concurrently on tokio (own a Spawner; liveness has no bounded sequential safety form) (DESIGN 4.C09)",
     "C15": "close = memory.flush().await + storage.close() + reopen over Store/engine/device, all behind Spawner/tokio (DESIGN 4.C15); the eviction half of flush is decided under C13",
 }
